@@ -14,6 +14,21 @@ for pkg in ["cache","server","database/inmemory"]:
         dst=os.path.join(out,pkg.replace("/","_")+"_"+os.path.basename(f))
         open(dst,"w").write(new)
         rep[f]=dst
+# client/client.go: a scheduling point is announced before every blocking lock acquisition, error-channel send and
+# wait-group wait (same line, so that line numbers are those of /repo); nothing else changes
+f="/repo/client/client.go"
+lines=open(f).read().split("\n")
+npts=0
+for i,l in enumerate(lines):
+    st=l.strip()
+    if re.fullmatch(r'[\w\.\(\)]+\.R?Lock\(\)',st) or st in ("o.errorCh <- err","o.handlerShutdown.Wait()"):
+        ind=l[:len(l)-len(l.lstrip())]
+        lines[i]='%sverifPoint("client.go:%d %s"); %s'%(ind,i+1,st.replace('"',"'"),st)
+        npts+=1
+dst=os.path.join(out,"client_client.go")
+open(dst,"w").write("\n".join(lines))
+rep[f]=dst
+rep["/repo/client/verif_points.go"]="/verif/mc/shim/points/verif_points.go"
 rep["/repo/verifshim/vsync/vsync.go"]="/verif/mc/shim/vsync/vsync.go"
 json.dump({"Replace":rep},open(os.path.join(out,"overlay.json"),"w"),indent=1)
-print(len(rep)-1,"files rewritten")
+print(len(rep)-3,"files rewritten for sync,",npts,"points announced in client.go")
